@@ -66,6 +66,21 @@ m("c04-v3l-half-key", ["C04"], "v3.local derives the authentication AND encrypti
   [("src/core/common/authentication_key_impl/v3_local.rs", "salt.extract(key.as_ref())", "salt.extract(&key.as_ref()[..16])"),
    ("src/core/common/encryption_key_impl/v3_local.rs", "salt.extract(key.as_ref())", "salt.extract(&key.as_ref()[..16])")])
 
+# ---- C05 (nested parsers): the expected footer of the v4.local parser lives in a per-thread slot that new() resets -------
+m("c05-v4l-footer-in-thread-slot", ["C05"], "GenericParser<V4,Local> reads its expected footer from a per-thread slot that every GenericParser::new() resets: a second parser created while the first is alive wipes the first one's footer (only two parser objects alive at once show it)",
+  [("src/generic/parsers/generic_parser.rs",
+    "use std::collections::{HashMap, HashSet};\n",
+    "use std::collections::{HashMap, HashSet};\n\nthread_local! {\n  static EXPECTED_FOOTER: std::cell::RefCell<Option<String>> = const { std::cell::RefCell::new(None) };\n}\n"),
+   ("src/generic/parsers/generic_parser.rs",
+    "  pub fn new() -> Self {\n    GenericParser::<Version, Purpose> {",
+    "  pub fn new() -> Self {\n    EXPECTED_FOOTER.with(|f| *f.borrow_mut() = None);\n    GenericParser::<Version, Purpose> {"),
+   ("src/generic/parsers/generic_parser.rs",
+    "    self.footer = footer;\n    self\n",
+    "    self.footer = footer;\n    EXPECTED_FOOTER.with(|f| *f.borrow_mut() = Some(footer.as_ref().to_string()));\n    self\n"),
+   ("src/generic/parsers/generic_parser.rs",
+    "    let token =\n      Paseto::<V4, Local>::try_decrypt(potential_token, key, self.get_footer(), self.get_implicit_assertion())?;",
+    "    let slot = EXPECTED_FOOTER.with(|f| f.borrow().clone());\n    let token =\n      Paseto::<V4, Local>::try_decrypt(potential_token, key, slot.as_deref().map(Footer::from), self.get_implicit_assertion())?;")])
+
 # ---- C05: footer comparison dropped -----------------------------------------------------------------------
 m("c05-footer-compare-dropped", ["C05", "C03"], "parse_raw_token no longer compares the footer of 4-segment tokens (still in PAE via expectation)",
   [("src/core/paseto.rs", "                if !footer.constant_time_equals(found_footer) {\n                    return Err(PasetoError::FooterInvalid);\n                }", "                let _ = footer.constant_time_equals(found_footer);")])
